@@ -16,10 +16,13 @@ META = {
                    'every request, successful, cached or failed (C08_restore, C08_restore_history, C08_hip_frame, C08_cli_restore, '
                    'C08_get_frame, C08_mc_package); the client of the pinned tree is kept as a named alternative with its refutation '
                    '(C08_restore_pinned_refuted/_partial). The clause "a client never returns a result computed from content different '
-                   'from the request" is REFUTED twice - by the path-keyed cache and by relative request paths, which are opened in the '
-                   'program\'s directory (C08_cache_refines_run_refuted, C08_relative_request_refuted; two known findings) - and proved '
-                   'for every history under the hypotheses it needs (C08_cache_refines_run_partial, C08_nocache_refines_run, '
-                   'C08_absolute_paths_resolve_same, C08_result_function_of_content); both repairs are proved sound '
+                   'from the request" is REFUTED by the path-keyed cache - a file changed after it was cached, and the same relative '
+                   'path requested from two directories (C08_cache_refines_run_refuted, C08_cache_relative_shared_refuted; one known '
+                   'finding) - and proved for every history under the hypotheses the cache needs, unconditionally with caching off, '
+                   'relative paths from changing directories included (C08_cache_refines_run_partial, C08_nocache_refines_run, '
+                   'C08_result_function_of_content); the clients of the pinned tree, which opened a relative path in the program '
+                   'directory, are kept as the named alternative pinned_opendir with their refutation (C08_relative_request_refuted; '
+                   'repaired by fa4a753); the content-keyed cache is proved sound '
                    '(C08_sound_key_refines_run, C08_content_key_refines_run, C08_caller_dir_resolves_same). State that outlives a run: '
                    'lru_cache tables (memoising a key-respecting function is unobservable, identity-keyed tables never hit on distinct '
                    'objects, every memoised callable of the source is of one of the two kinds) and every other module/class-level '
@@ -66,16 +69,14 @@ META = {
 }
 GENERATORS = (c08_memo.gen_memo_table, c08_state.gen_state_table)
 
-PROPERTY_CODES = ('restore', 'refine', 'stale', 'rel')
+PROPERTY_CODES = ('restore', 'refine', 'stale')
 WHAT = {
     'restore': 'cwd / sys.argv after the call differ from before it',
     'refine': 'the result returned is not the run of the content the requested file holds at request time',
-    'stale': ('GeophiresXClient returns the cached result of the OLD file content after the input file was rewritten/deleted '
-              '(cache keyed by hash(file path) only)'),
+    'stale': ('GeophiresXClient returns a cached result that is not the run of the requested file: the file was rewritten/deleted '
+              'after it was cached, or the same relative path was cached from another working directory (cache keyed by '
+              'hash(file path as given) only)'),
     'impure': 'the same input gives numerically different output in this history than in a fresh process',
-    'rel': ('a request whose from_file_path is RELATIVE is resolved against the directory of the program (its main() chdirs there '
-            'before opening the file), not against the caller\'s working directory: the caller gets the run of another file, or '
-            'a failure although its own file exists'),
 }
 
 
@@ -165,8 +166,8 @@ def evaluate(ctx, part0, sessions, contents, refs, do_minimize=True, tag=None):
             i = model_bad[0][0]
             ctx.violate('corr', f'model:{s["ops"][i][0]}:{r["obs"][i]["out"][0]}',
                         f'implementation and Model.Process (current client) disagree at operation {i} {s["ops"][i]} of session '
-                        f'{s.get("name", si)}' + ('; the implementation behaves like the client of the PINNED tree (restore only '
-                                                   'after success)' if variant == 'pinned' else ''),
+                        f'{s.get("name", si)}' + (f'; the implementation behaves like the clients of the PINNED tree ({variant})'
+                                                   if variant else ''),
                         inp={'session': S.compact(dict(s, ops=s['ops'][:i + 1]), contents)}, observed=r['obs'][i])
     return results, memo_hits
 
